@@ -12,6 +12,7 @@ From KaiV Require Import Model.Res Model.Status Model.AMap Model.Node Model.Prog
 From KaiV Require Import Proofs.Progress.
 From KaiV Require Model.Reclaim Model.ReclaimSpec.
 From KaiV Require Import Model.ProgressTree Proofs.ProgressTree Proofs.ProgressTreeAction.
+From KaiV Require Import Model.ProgressFaults Proofs.ProgressFaults.
 Import ListNotations.
 Open Scope Z_scope.
 
@@ -373,3 +374,116 @@ Theorem C05_mixed_depth_nonvacuous :
   /\ Reclaim.fits_strategy unit_res (to_rq mx_dept1) (to_rq mx_org) (Reclaim.alloc_vec (to_rq mx_org)) = false.
 Proof. exact mixed_depth_nonvacuous. Qed.
 Print Assumptions C05_mixed_depth_nonvacuous.
+
+(** * Work conservation when the API server refuses bind requests
+
+    Model/ProgressFaults.v: the allocate loop with Statement.Commit under a
+    failure oracle [f] (is the k-th Cache.Bind call of the action refused?).  A
+    refused Bind un-allocates THAT pod (Statement.commitAllocate ->
+    cleanupFailedAllocation), the remaining operations of the statement are
+    dropped, Commit returns the error, the job is not pushed back, and the
+    action goes on with the next job ([carry_on = true]: allocate.go as it is). *)
+
+(** The fault-free statement with "or one of its binds was refused" as the
+    only new escape: for all oracles, gates, node orders, pop orders AND ALL
+    FAILURE ORACLES, a job that is out of the loop with an allocation unit left
+    either had a Bind of its own refused in this run of the action, or its unit
+    cannot be bound as a whole on the idle, non-nominated capacity that is left
+    while the job-level capacity gate would let it through.  (A refused Bind
+    gives back exactly what the pod took, so the capacity a refused job saw can
+    only have shrunk: Proofs/ProgressFaults.v, [attempt_commit_shrinks].) *)
+Theorem C05_work_conservation_under_bind_faults :
+  forall pred tgate gate nord gsel shouldpipe f st0 order,
+    gate_antitone gate -> gate_implies_tgate tgate gate -> covers nord (map fst (ls_nodes st0)) -> wf_state st0 ->
+    let fs := allocate_action_f pred tgate gate nord gsel shouldpipe true f st0 order in
+    let st := fs_ls fs in
+    forall j c rest, In j (ls_jobs st) -> js_failed j = true -> js_todo j = c :: rest ->
+      homogeneous pred c -> NoDup (map t_id c) ->
+      (forall t, In t c -> forall nid n, alookup nid (ls_nodes st) = Some n -> amem (t_id t) (n_pods n) = false) ->
+      was_hit (fs_calls fs) (js_id j) = true
+      \/ ~ (gate (ls_hist st) (js_id j) c = true /\ fits_all pred (ls_nodes st) c).
+Proof. exact (work_conservation_faults_proof true). Qed.
+Print Assumptions C05_work_conservation_under_bind_faults.
+
+(** EVERY workload that is still pending: for a pop order that empties the
+    queue of the loop (the real loop runs until JobsOrderByQueues is empty), every
+    job that has an allocation unit left after the action had a Bind refused or
+    does not fit / does not pass its queues' gate. *)
+Theorem C05_every_pending_workload_accounted_under_bind_faults : every_pending_accounted true.
+Proof. exact every_pending_accounted_proof. Qed.
+Print Assumptions C05_every_pending_workload_accounted_under_bind_faults.
+
+(** It does NOT hold for the loop that leaves Execute at the first failed commit
+    ([carry_on = false]; not the code).  Witness (the world of seeded/C05-4's
+    README): one node with 3 GPUs, three queues, one 1-GPU job each, pop order
+    1, 2, 3, the first Bind refused: jobs 2 and 3 are never attempted, no Bind
+    of theirs was refused, three GPUs are idle. *)
+Theorem C05_stop_at_first_failed_commit_refuted : ~ every_pending_accounted false.
+Proof. exact stop_at_first_failed_commit_refuted_proof. Qed.
+Print Assumptions C05_stop_at_first_failed_commit_refuted.
+
+(** Non-vacuity on the same world with the loop as it is: the refused pod's
+    job is the only one left (it is accounted for by its refused Bind: it would
+    fit), the two jobs ordered after it are bound, the queue is empty. *)
+Notation C05_readme_run carry_on :=
+  (allocate_action_f x_pred x_tgate x_gate g_nord x_gsel x_shouldpipe carry_on first_refused r_st0 r_order).
+Theorem C05_bind_faults_nonvacuous :
+  wf_state r_st0
+  /\ fs_calls (C05_readme_run true) = [ABindRefused 1 1 1; ABind 2 2 1; ABind 3 3 1]
+  /\ exhausted (fs_ls (C05_readme_run true)) = true
+  /\ ls_jobs (fs_ls (C05_readme_run true)) = [mkJS 1 [r_unit 1] true; mkJS 2 [] false; mkJS 3 [] false]
+  /\ was_hit (fs_calls (C05_readme_run true)) 1 = true
+  /\ fits_seq x_pred (ls_nodes (fs_ls (C05_readme_run true))) (r_unit 1) [1%positive] = true.
+Proof. split; [exact r_wf_state|exact r_carry_on]. Qed.
+Print Assumptions C05_bind_faults_nonvacuous.
+
+(** Faults only refuse, commit by commit (the pattern of C06's
+    [faults_only_refuse]): the Cache calls of one Statement.Commit under any
+    oracle - the refused call counted as made - are a prefix of the calls the
+    same operations give without faults. *)
+Theorem C05_bind_faults_only_refuse_within_a_commit :
+  forall f jid ops kb kb' ns ns',
+    exists rest, cr_calls (commit_f no_bind_faults jid kb' ns' ops)
+                 = map as_accepted (cr_calls (commit_f f jid kb ns ops)) ++ rest.
+Proof. exact commit_faults_only_refuse. Qed.
+Print Assumptions C05_bind_faults_only_refuse_within_a_commit.
+
+(** ... and the whole action is the fault-free action of
+    C05_work_conservation_partial as long as no call is refused: under any
+    oracle, a run in which no Bind was refused ends in the state of
+    Model/Progress.v's loop; in particular under the oracle that refuses nothing. *)
+Theorem C05_unhit_run_is_the_fault_free_run :
+  forall pred tgate gate nord gsel shouldpipe carry_on f st0 order,
+    hit_jobs (fs_calls (allocate_action_f pred tgate gate nord gsel shouldpipe carry_on f st0 order)) = [] ->
+    fs_ls (allocate_action_f pred tgate gate nord gsel shouldpipe carry_on f st0 order)
+    = allocate_action pred tgate gate nord gsel shouldpipe st0 order.
+Proof. exact no_faults_is_fault_free. Qed.
+Print Assumptions C05_unhit_run_is_the_fault_free_run.
+
+Theorem C05_no_bind_faults_is_the_fault_free_action :
+  forall pred tgate gate nord gsel shouldpipe carry_on st0 order,
+    fs_ls (allocate_action_f pred tgate gate nord gsel shouldpipe carry_on no_bind_faults st0 order)
+    = allocate_action pred tgate gate nord gsel shouldpipe st0 order.
+Proof. exact no_bind_faults_fault_free. Qed.
+Print Assumptions C05_no_bind_faults_is_the_fault_free_action.
+
+(** Across commits the accepted binds are NOT those of the fault-free run
+    restricted to the jobs that were not hit: a refused Bind gives the pod's
+    capacity and quota back and a job ordered later takes them.  One node with
+    1 GPU, two 1-GPU jobs: without faults job 1 is bound and job 2 refused; with
+    the first Bind refused, job 2 - no Bind of which is refused - is bound. *)
+Theorem C05_accepted_binds_monotone_refuted : ~ accepted_binds_monotone.
+Proof. exact accepted_binds_monotone_refuted_proof. Qed.
+Print Assumptions C05_accepted_binds_monotone_refuted.
+
+(** What the theorems above call "capacity that is left" is the session's
+    books.  Against the cluster as the API server knows it (operations dropped by
+    a failed commit hold nothing there: [ground_truth]) the statement is FALSE:
+    one node with 2 GPUs, gang a (two 1-GPU pods) ordered before gang b (two
+    1-GPU pods), the Bind of a's first pod refused: a's second pod stays
+    Allocated on the node in the session without any Cache call, b is refused
+    for lack of one GPU, and nothing at all was bound.  Replayed on the real
+    allocate action: known finding C05-failed-commit-leaves-unbound-pods-allocated. *)
+Theorem C05_every_pending_accounted_at_api_server_refuted : ~ every_pending_accounted_at_api_server.
+Proof. exact dropped_operations_hold_capacity_proof. Qed.
+Print Assumptions C05_every_pending_accounted_at_api_server_refuted.
